@@ -292,7 +292,7 @@ def case_hash(case):
 
 
 def write_replay(prop, kind, payload):
-    REPLAYS.mkdir(exist_ok=True)
+    REPLAYS.mkdir(parents=True, exist_ok=True)
     name = "%s-%s-%s.json" % (prop, kind, hashlib.sha1(json.dumps(payload, sort_keys=True, default=str).encode()).hexdigest()[:10])
     path = REPLAYS / name
     path.write_text(json.dumps(payload, indent=1, default=str))
@@ -541,7 +541,7 @@ def main(argv=None):
         "wall_s": round(time.time() - t0, 2),
         "violations": len(violations) + (1 if (broken and not violations) else 0),
     }
-    EVID.mkdir(exist_ok=True)
+    EVID.mkdir(parents=True, exist_ok=True)
     (EVID / (prop + ".json")).write_text(json.dumps(evidence, indent=1, default=str))
     vt = {}
     for r in violations:
